@@ -93,7 +93,7 @@ func TestRejectedWithoutLegacy(t *testing.T) {
 		Classes: func(c rejectCase) []string {
 			return []string{"path:default", fmt.Sprintf("known:%d", len(c.Content.Known)), fmt.Sprintf("unknown:%d", len(c.Content.Unknown))}
 		},
-		Quick: 2000, Thorough: 30000,
+		Quick: 2000, Thorough: 20000,
 	})
 }
 
